@@ -160,16 +160,25 @@ class Check:
         log("[%s] %d run specs generated in %.1f s" % (prop, len(specs), time.monotonic() - self.t0))
         done = [0]
 
+        early = os.environ.get("VERIF_EARLY_STOP") == "1"  # sensitivity runs: a decided batch need not be finished
+
         def on_result(i, r):
             done[0] += 1
+            if early and r and not r.get("harness_error") and (
+                    r.get("violation") or any(c.get("class") in judge.C10_LOCAL + ("input-mutated",)
+                                              for rec in r.get("ops") or [] for c in rec.get("checks") or [])):
+                self.farm.stop = True
             if done[0] % 500 == 0:
                 log("[%s]   %d/%d runs, %.0f s" % (prop, done[0], len(specs), time.monotonic() - self.t0))
 
         results = self.farm.run_all(specs, on_result=on_result, deadline=self.deadline)
+        stopped_early, self.farm.stop = self.farm.stop, False
         executed = [(s, r) for s, r in zip(specs, results) if r is not None]
         skipped = len(specs) - len(executed)
         if skipped:
-            self.notes.append("%d generated runs were not executed: wall budget of %d s reached" % (skipped, self.cfg["budget_s"]))
+            self.notes.append("%d generated runs were not executed: %s" % (
+                skipped, "VERIF_EARLY_STOP=1 and a run had already violated the property" if stopped_early
+                else "wall budget of %d s reached" % self.cfg["budget_s"]))
         log("[%s] %d runs executed in %.1f s; computing references" % (prop, len(executed), time.monotonic() - self.t0))
         wanted = {}
         for s, r in executed:
